@@ -10,6 +10,7 @@ mod fam_hist;
 mod fam_api;
 mod fam_wire;
 mod fam_conc;
+mod fam_vss;
 mod util;
 
 use codec::Tok;
@@ -21,6 +22,7 @@ fn run_case(fam: i64, case: &[Vec<Tok>]) -> Vec<Vec<Tok>> {
         2 => case.iter().map(|l| fam_validate::run_line(l)).collect(),
         14 => fam_glob::run_case(case),
         1 | 16 => fam_hist::run_case(case),
+        17 => fam_vss::run_case(case),
         15 => case.iter().map(|l| fam_wire::run_line(l)).collect(),
         11 => case.iter().map(|l| fam_conc::run_trace_line(l)).collect(),
         12 => case.iter().map(|l| fam_conc::run_sched_line(l)).collect(),
